@@ -21,18 +21,27 @@ size_t g_k;
 int g_t;
 
 /* parser invariant */
+/* The token array object has MAXT elements and num_tokens <= MAXT is symbolic: for num_tokens == MAXT the array
+ * has EXACTLY num_tokens elements (the jsmn API), so any read or write of tokens[num_tokens] is an out-of-bounds
+ * failure; for smaller budgets the contracts demand that tokens at index >= toknext are never changed.
+ * (An object of symbolic size num_tokens * sizeof(jsmntok_t) was tried: CBMC did not finish in 13 min.) */
+#define TOKENS_BYTES(nt) (MAXT * sizeof(jsmntok_t))
+
+/* index of the next free token, clamped to 0 when the budget is exhausted (no conditional expression inside old()) */
+#define NEXT_IDX(p, nt) ((p)->toknext * ((size_t)(p)->toknext < (size_t)(nt)))
+
 #define PI(p, nt) ((p)->pos <= g_n && (p)->toknext >= 0 && (size_t)(p)->toknext <= (size_t)(nt) && (p)->toksuper >= -1 && (p)->toksuper < (p)->toknext)
 
 static jsmntok_t *jsmn_alloc_token(jsmn_parser *parser, jsmntok_t *tokens, size_t num_tokens)
 __CPROVER_requires(__CPROVER_is_fresh(parser, sizeof(*parser)))
-__CPROVER_requires(__CPROVER_is_fresh(tokens, (MAXT + 1) * sizeof(jsmntok_t)))
+__CPROVER_requires(__CPROVER_is_fresh(tokens, TOKENS_BYTES(num_tokens)))
 __CPROVER_requires(num_tokens <= MAXT && parser->toknext >= 0 && (size_t)parser->toknext <= num_tokens)
 __CPROVER_assigns(parser->toknext)
-__CPROVER_assigns((size_t)parser->toknext < num_tokens: tokens[parser->toknext])
+__CPROVER_assigns((size_t)parser->toknext < num_tokens: tokens[NEXT_IDX(parser, num_tokens)])
 __CPROVER_ensures(parser->pos == __CPROVER_old(parser->pos) && parser->toksuper == __CPROVER_old(parser->toksuper))
 __CPROVER_ensures(__CPROVER_old((size_t)parser->toknext) == num_tokens ==> (__CPROVER_return_value == NULL && parser->toknext == __CPROVER_old(parser->toknext)))
 __CPROVER_ensures(__CPROVER_old((size_t)parser->toknext) < num_tokens ==> (__CPROVER_return_value == &tokens[__CPROVER_old(parser->toknext)] && parser->toknext == __CPROVER_old(parser->toknext) + 1 && __CPROVER_return_value->start == -1 && __CPROVER_return_value->end == -1 && __CPROVER_return_value->size == 0))
-__CPROVER_ensures(__CPROVER_old((size_t)parser->toknext) < num_tokens ==> __CPROVER_return_value->type == __CPROVER_old(tokens[parser->toknext].type))
+__CPROVER_ensures(__CPROVER_old((size_t)parser->toknext) < num_tokens ==> __CPROVER_return_value->type == __CPROVER_old(tokens[NEXT_IDX(parser, num_tokens)].type))
 ;
 
 static void jsmn_fill_token(jsmntok_t *token, jsmntype_t type, int start, int end)
@@ -44,18 +53,18 @@ __CPROVER_ensures(token->type == type && token->start == start && token->end == 
 #define TOKEQ_OLD(toks, k) ((toks)[k].type == __CPROVER_old((toks)[k].type) && (toks)[k].start == __CPROVER_old((toks)[k].start) && (toks)[k].end == __CPROVER_old((toks)[k].end) && (toks)[k].size == __CPROVER_old((toks)[k].size))
 
 /* the next free token (index toknext, unchanged on failure) keeps its contents */
-#define NEXT_UNTOUCHED(p, toks) ((toks)[(p)->toknext].type == __CPROVER_old((toks)[(p)->toknext].type) && (toks)[(p)->toknext].start == __CPROVER_old((toks)[(p)->toknext].start) && (toks)[(p)->toknext].end == __CPROVER_old((toks)[(p)->toknext].end) && (toks)[(p)->toknext].size == __CPROVER_old((toks)[(p)->toknext].size))
+#define NEXT_UNTOUCHED(p, toks) ((toks)[(p)->toknext].type == __CPROVER_old((toks)[NEXT_IDX(p, num_tokens)].type) && (toks)[(p)->toknext].start == __CPROVER_old((toks)[NEXT_IDX(p, num_tokens)].start) && (toks)[(p)->toknext].end == __CPROVER_old((toks)[NEXT_IDX(p, num_tokens)].end) && (toks)[(p)->toknext].size == __CPROVER_old((toks)[NEXT_IDX(p, num_tokens)].size))
 
 #define ESC_OK(c) ((c) == '\"' || (c) == '/' || (c) == '\\' || (c) == 'b' || (c) == 'f' || (c) == 'r' || (c) == 'n' || (c) == 't' || (c) == 'u')
 
 static jsmnerr_t jsmn_parse_string(jsmn_parser *parser, const char *js, jsmntok_t *tokens, size_t num_tokens)
 __CPROVER_requires(__CPROVER_is_fresh(parser, sizeof(*parser)))
 __CPROVER_requires(__CPROVER_is_fresh(js, MAXN + 1))
-__CPROVER_requires(__CPROVER_is_fresh(tokens, (MAXT + 1) * sizeof(jsmntok_t)))
+__CPROVER_requires(__CPROVER_is_fresh(tokens, TOKENS_BYTES(num_tokens)))
 __CPROVER_requires(g_n <= MAXN && js[g_n] == 0 && num_tokens <= MAXT)
 __CPROVER_requires(PI(parser, num_tokens) && js[parser->pos] == '\"')
 __CPROVER_assigns(parser->pos, parser->toknext)
-__CPROVER_assigns((size_t)parser->toknext < num_tokens: tokens[parser->toknext])
+__CPROVER_assigns((size_t)parser->toknext < num_tokens: tokens[NEXT_IDX(parser, num_tokens)])
 __CPROVER_ensures(PI(parser, num_tokens) && parser->toksuper == __CPROVER_old(parser->toksuper))
 __CPROVER_ensures(__CPROVER_return_value == JSMN_SUCCESS || __CPROVER_return_value == JSMN_ERROR_NOMEM || __CPROVER_return_value == JSMN_ERROR_INVAL || __CPROVER_return_value == JSMN_ERROR_PART)
 __CPROVER_ensures(__CPROVER_return_value != JSMN_SUCCESS ==> (parser->pos == __CPROVER_old(parser->pos) && parser->toknext == __CPROVER_old(parser->toknext)))
@@ -70,7 +79,7 @@ __CPROVER_ensures(__CPROVER_return_value == JSMN_SUCCESS ==> (
  * every quote inside the token is preceded by a backslash */
 __CPROVER_ensures((__CPROVER_return_value == JSMN_SUCCESS && __CPROVER_old(parser->pos) < g_k && g_k < parser->pos) ==> js[g_k] != 0)
 __CPROVER_ensures((__CPROVER_return_value == JSMN_SUCCESS && __CPROVER_old(parser->pos) < g_k && g_k < parser->pos && js[g_k] == '\"') ==> js[g_k - 1] == '\\')
-__CPROVER_ensures(__CPROVER_return_value != JSMN_SUCCESS ==> NEXT_UNTOUCHED(parser, tokens))
+__CPROVER_ensures((__CPROVER_return_value != JSMN_SUCCESS && (size_t)parser->toknext < num_tokens) ==> NEXT_UNTOUCHED(parser, tokens))
 ;
 
 #define PRIM_DELIM(c) ((c) == '\t' || (c) == '\r' || (c) == '\n' || (c) == ' ' || (c) == ',' || (c) == ']' || (c) == '}' || (c) == ':')
@@ -80,11 +89,11 @@ __CPROVER_ensures(__CPROVER_return_value != JSMN_SUCCESS ==> NEXT_UNTOUCHED(pars
 static jsmnerr_t jsmn_parse_primitive(jsmn_parser *parser, const char *js, jsmntok_t *tokens, size_t num_tokens)
 __CPROVER_requires(__CPROVER_is_fresh(parser, sizeof(*parser)))
 __CPROVER_requires(__CPROVER_is_fresh(js, MAXN + 1))
-__CPROVER_requires(__CPROVER_is_fresh(tokens, (MAXT + 1) * sizeof(jsmntok_t)))
+__CPROVER_requires(__CPROVER_is_fresh(tokens, TOKENS_BYTES(num_tokens)))
 __CPROVER_requires(g_n <= MAXN && js[g_n] == 0 && num_tokens <= MAXT)
 __CPROVER_requires(PI(parser, num_tokens) && js[parser->pos] != 0 && !PRIM_DELIM(js[parser->pos]))
 __CPROVER_assigns(parser->pos, parser->toknext)
-__CPROVER_assigns((size_t)parser->toknext < num_tokens: tokens[parser->toknext])
+__CPROVER_assigns((size_t)parser->toknext < num_tokens: tokens[NEXT_IDX(parser, num_tokens)])
 __CPROVER_ensures(PI(parser, num_tokens) && parser->toksuper == __CPROVER_old(parser->toksuper))
 __CPROVER_ensures(__CPROVER_return_value == JSMN_SUCCESS || __CPROVER_return_value == JSMN_ERROR_NOMEM || __CPROVER_return_value == JSMN_ERROR_INVAL)
 __CPROVER_ensures(__CPROVER_return_value != JSMN_SUCCESS ==> (parser->pos == __CPROVER_old(parser->pos) && parser->toknext == __CPROVER_old(parser->toknext)))
@@ -97,7 +106,7 @@ __CPROVER_ensures(__CPROVER_return_value == JSMN_SUCCESS ==> (
     tokens[parser->toknext - 1].end == (int)parser->pos + 1))
 /* every byte of the primitive is printable ASCII and no delimiter */
 __CPROVER_ensures((__CPROVER_return_value == JSMN_SUCCESS && __CPROVER_old(parser->pos) <= g_k && g_k <= parser->pos) ==> (js[g_k] >= 32 && js[g_k] < 127 && !PRIM_DELIM(js[g_k])))
-__CPROVER_ensures(__CPROVER_return_value != JSMN_SUCCESS ==> NEXT_UNTOUCHED(parser, tokens))
+__CPROVER_ensures((__CPROVER_return_value != JSMN_SUCCESS && (size_t)parser->toknext < num_tokens) ==> NEXT_UNTOUCHED(parser, tokens))
 ;
 
 /* token well-formed w.r.t. a position bound b: extents inside [0,b], open tokens have end == -1 */
@@ -108,11 +117,11 @@ __CPROVER_ensures(__CPROVER_return_value != JSMN_SUCCESS ==> NEXT_UNTOUCHED(pars
 jsmnerr_t jsmn_parse(jsmn_parser *parser, const char *js, jsmntok_t *tokens, unsigned int num_tokens)
 __CPROVER_requires(__CPROVER_is_fresh(parser, sizeof(*parser)))
 __CPROVER_requires(__CPROVER_is_fresh(js, MAXN + 1))
-__CPROVER_requires(__CPROVER_is_fresh(tokens, (MAXT + 1) * sizeof(jsmntok_t)))
+__CPROVER_requires(__CPROVER_is_fresh(tokens, TOKENS_BYTES(num_tokens)))
 __CPROVER_requires(g_n <= MAXN && js[g_n] == 0 && num_tokens <= MAXT)
 __CPROVER_requires(PI(parser, num_tokens))
 __CPROVER_requires(SIZES(parser, tokens))
-__CPROVER_requires(0 <= g_t && g_t <= MAXT)
+__CPROVER_requires(0 <= g_t && g_t < MAXT)
 __CPROVER_requires(g_t < parser->toknext ==> TOKWF(tokens[g_t], parser->pos))
 __CPROVER_assigns(parser->pos, parser->toknext, parser->toksuper, __CPROVER_object_whole(tokens))
 __CPROVER_ensures(PI(parser, num_tokens))
